@@ -68,7 +68,10 @@ def run_impl(c):
         _UTILS[key] = (SklearnModelRocAuc if c["auc"] else SklearnModelAccuracy)(KNeighborsClassifier(n_neighbors=1))
     u = _UTILS[key]
     T = len(c["yt"])
-    y_train = np.array(c["train"])
+    # the training labels, too, live in one buffer per length that is rewritten in place between calls (label repair): every
+    # answer must refer to the CURRENT contents
+    y_train = _BUF.setdefault((key, "train", len(c["train"])), np.zeros(len(c["train"]), dtype=int))
+    y_train[:] = c["train"]
     # reuse one label buffer per length, edited in place between calls
     buf = _BUF.setdefault((key, T), np.zeros(T, dtype=int))
     buf[:] = c["yt"]
